@@ -525,5 +525,19 @@ func extractC04() *lean {
 		})
 	}
 	l.def("middlewareStateUses", "List String", leanStrList(mwMutations), mwMutations)
+	// ---------------- Configure: the order in which the middlewares are added (echo runs them in that order)
+	var order []string
+	if fd := funcDecl(eng, "Configure"); fd != nil {
+		ast.Inspect(fd, func(n ast.Node) bool {
+			if c, ok := n.(*ast.CallExpr); ok {
+				f := exprString(c.Fun)
+				if strings.HasPrefix(f, "h.apply") && strings.HasSuffix(f, "Middleware") {
+					order = append(order, f)
+				}
+			}
+			return true
+		})
+	}
+	l.def("middlewareOrder", "List String", leanStrList(order), order)
 	return l
 }
